@@ -13,6 +13,8 @@
 //!     signature of a variant (body: the reference encoding of the type's first value when the
 //!     signature is a valid single complete type, zero bytes otherwise), as the value of a `g`, and
 //!     as the value of a `g` inside a variant.
+//! (d) a byte inside n nested containers for n around the limits (64 in total): variants only, and
+//!     a variant / array / structure cycle; decoded as a `Value` on the typed route.
 //! Oracle: each real decode route (`variant`: as a `zvariant::Value` after a variant header,
 //! `dyn`: typed Rust targets / `Array` / `Structure`, `serde`: generic serde seed — see zvx.rs)
 //! succeeds ⇔ `refdbus::decode` accepts a prefix of the bytes; on success the value and the
@@ -530,6 +532,50 @@ fn part_b(report: &Report, args: &Args) {
 }
 
 // ------------------------------------------------------------------------------------------
+// part (d): nesting around the limits, through variants
+// ------------------------------------------------------------------------------------------
+
+/// `n` containers around a byte. `mixed` = cycle variant / array / structure from the outside in
+/// (the outermost is a variant, so the static type is `v`); otherwise variants only.
+fn nested(n: usize, mixed: bool) -> RV {
+    let mut v = RV::Y(7);
+    for j in 0..n {
+        let kind = if mixed { (n - 1 - j) % 3 } else { 0 };
+        v = match kind {
+            0 => RV::V(Box::new((v.ty(), v))),
+            1 => RV::Array(v.ty(), vec![v]),
+            _ => RV::Struct(vec![v]),
+        };
+    }
+    v
+}
+
+fn part_d(report: &Report, _args: &Args) {
+    let mut cases: Vec<(usize, bool)> = [1usize, 2, 32, 33, 63, 64, 65, 66].iter().map(|n| (*n, false)).collect();
+    cases.extend([61usize, 62, 63, 64, 65, 66, 67].iter().map(|n| (*n, true)));
+    report.set("d_cases", json!(cases.iter().map(|(n, m)| format!("{n} containers, {}", if *m { "variant/array/structure cycle" } else { "variants only" })).collect::<Vec<_>>()));
+    let ty = Ty::V;
+    let u = Unit::new(&ty);
+    // the `variant` route would put one more container around the value: typed routes only
+    let opts = Opts { only_route: Some("dyn"), verbose: false };
+    let mut acc = Acc::default();
+    let mut scratch = vec![];
+    zvx::with_fds(|fds| {
+        for (n, mixed) in &cases {
+            let v = nested(*n, *mixed);
+            for be in [false, true] {
+                for off in [0usize, 4] {
+                    let enc = refdbus::encode(&v, be, off).buf;
+                    acc.count("d_encodings", 1);
+                    evaluate(&mut acc, "d:nesting", &u, &enc, be, off, fds, &mut scratch, &opts);
+                }
+            }
+        }
+    });
+    acc.flush(report);
+}
+
+// ------------------------------------------------------------------------------------------
 // part (c)
 // ------------------------------------------------------------------------------------------
 
@@ -633,7 +679,7 @@ pub fn main(args: &Args) -> i32 {
         return replay(p);
     }
     let report = Report::new("C03", args.tier, args.seed, "exploration");
-    let only = std::env::var("ZV_C03_PARTS").unwrap_or_else(|_| "abc".into());
+    let only = std::env::var("ZV_C03_PARTS").unwrap_or_else(|_| "abcd".into());
     if only.contains('a') {
         part_a(&report, args);
         report.set("a_wall_s", json!(report.elapsed_s()));
@@ -645,7 +691,10 @@ pub fn main(args: &Args) -> i32 {
     if only.contains('c') {
         part_c(&report, args);
     }
-    if only != "abc" {
+    if only.contains('d') {
+        part_d(&report, args);
+    }
+    if only != "abcd" {
         report.cap(format!("only parts `{only}` were run (ZV_C03_PARTS)"));
     }
     // a few deterministic samples
